@@ -13,6 +13,16 @@ CLAIMS = {
          "activation entry points and that access<T>() denotes the sub-object handlers run on - for every instantiation in the zoo. The count "
          "'exactly once over a history' follows from these invariants and is not separately computed.",
          "path/order rules + who-may-call + sibling dispatch tables over clang AST facts (static analysis)"),
+ "C04": ("Decides the round protocol of R_::processTransitions / initialEnter on every structured path (apply, change test, pending:=requests, guards, "
+         "approved: record+backup | vetoed: restore), that nothing is committed inside the loop, the guard order and the cancellation detection in the "
+         "state wrappers, that a veto re-establishes every registry field a request may write (transitive may-write effects of applyRequest vs the veto "
+         "arm), backup/restore symmetry, and the substitution bound.",
+         "token-protocol path rule + transitive may-write effects + order rules over clang AST facts (static analysis)"),
+ "C09": ("Decides what is recorded and when (approved arm only; published on every exit of a step; cleared on deactivation/reset/load/replay), that the "
+         "change predicate compares the whole pending configuration, who may write the pin table and that it is read under a bound, and that replay reaches "
+         "no guard, records exactly the replayed list and commits through the ordinary routine. Does not decide that replay lands in the same configuration "
+         "from every state, nor the resumable part.",
+         "path rules + who-may-write + call-graph reachability over clang AST facts (static analysis)"),
  "C05": ("Decides the structural clauses of C05 for every instantiation of the reaction/update patterns in the witness zoo: phase order in "
          "R_::update/react/query, head vs sub-state order in C_/O_ and the 16 reaction wrappers, Initial-before-Remaining in OS_, consumption gating "
          "between any two consecutive deliveries (call-graph fixpoint mayDeliver/entryGated + path rule), active-prong origin, injected-base order. "
